@@ -34,6 +34,9 @@ pub fn profile() -> Profile {
     p.private = 0;
     p.workgroup = 0;
     p.unused_structs = (0, 0);
+    p.keyword_names = 2;
+    p.private = 3;
+    p.workgroup = 3;
     p
 }
 
